@@ -17,5 +17,5 @@ Next == Len(log) < LenOf(d) /\ S!Next(Len(QDocs[d].queries)) /\ UNCHANGED d
 Spec == Init /\ [][Next]_<<d, log>>
 InvEmit == Len(log) = LenOf(d) => PrintT(<<"REPLAY", ToJson([k |-> "qsession", d |-> d, qs |-> log])>>)
 ASSUME \A i \in 1..Len(QDocs) :
-         PrintT(<<"DOC", ToJson([k |-> "qdoc", d |-> i, text |-> QDocs[i].text, queries |-> QDocs[i].queries])>>)
+         PrintT(<<"DOC", ToJson([k |-> "qdoc", d |-> i, text |-> QDocs[i].text, binds |-> QDocs[i].binds, queries |-> QDocs[i].queries])>>)
 =============================================================================
